@@ -372,7 +372,7 @@ pub fn ts_keyboard_event(flags: Option<u16>, key_code: Option<u16>) -> TSInputEv
 fn ts_fp_update() -> Component {
     component![
         "updateHeader" => DynOption::new(0 as u8, |header| {
-            if (header >> 4) & 0x2 as u8 == 0 as u8 {
+            if (header >> 6) & 0x2 as u8 == 0 as u8 {
                 MessageOption::SkipField("compressionFlags".to_string())
             }
             else {
